@@ -9,7 +9,15 @@ def run(ctx):
     q = ctx.quick
     ctx.model_check("MC_Ops", "errors", constants=dict(O.BASE, Perturbs=("<-", "PertErr"), ErrStatuses=("<-", "StatQ" if q else "StatT")),
                     invariants=O.INV_C08, must_cover=["AgentReply", "Decode"])
+    # the walk level: how multiwalk's handlers treat an exchange that fails (every db over the small universe, both fetchers, both error modes)
+    from props import walkcommon as WC
+    FAULTS = '{"none", "noSuchName", "genErr", "foreignId", "usmReject"}'
+    ctx.model_check("MC_Walk", "walk_errors", constants=WC.consts("CandFQ", "RootF", 2, "{0,2}", False, '{"strict","warn"}', ExchangeFaults=FAULTS),
+                    invariants=["ErrorsPropagate", "NoSuchNameEndsWalk", "NoDup", "InsideRoots"], constraints=["NreqCap"], must_cover=["Round", "RoundFault"])
     if not q:
+        ctx.model_check("MC_Walk", "selftest_lenient_swallows_all", constants=WC.consts("CandFQ", "RootF", 1, "{0}", False, '{"strict","warn"}', ExchangeFaults=FAULTS,
+                                                                                       PinLenientSwallowsAll=True),
+                        invariants=["ErrorsPropagate"], constraints=["NreqCap"], expect=["ErrorsPropagate"])
         ctx.model_check("MC_Ops", "selftest_err_index", constants=dict(O.BASE, Perturbs=("<-", "PertErr"), ErrStatuses=("<-", "StatQ"), PinErrIndex=True),
                         invariants=O.INV_C08, expect=["ErrorSurfaces", "NoNonSnmpException"])
     rnd = random.Random(ctx.seed)
